@@ -729,6 +729,12 @@ func (fsm *fsm) stateChange(nextState bgp.FSMState, reason *fsmStateReason) {
 			state.PeerRestartTime = cap.Time
 
 			for _, t := range cap.Tuples {
+				// A family the session does not carry cannot be restarted
+				// gracefully: no route and no End-of-RIB marker of it can be
+				// received, so waiting for one would never end.
+				if _, negotiated := rfmap[bgp.NewFamily(t.AFI, t.SAFI)]; !negotiated {
+					continue
+				}
 				n := bgp.AddressFamilyNameMap[bgp.NewFamily(t.AFI, t.SAFI)]
 				for i, a := range conf.AfiSafis {
 					if string(a.Config.AfiSafiName) == n {
